@@ -13,7 +13,9 @@ import os
 
 import extie
 import c02gauss
+import c02bridge
 import c02exotic
+import c02weights
 import gridlib as gl
 import moments
 import vlib
@@ -98,7 +100,11 @@ def run(res, tier, seed, replay_script=None):
     proof_broken = (not props["ok"]) or bool(res.coverage["forbidden_tokens"])
     if replay_script is None:
         # Gauss rules: exactness to 2n-1 from the orthogonality of the node polynomial (Properties_C02_gauss.v); the hypotheses are evaluated on the library's nodes and weights
+        # combination-technique tensor weights: computeTensorWeights modelled, proved equal to inclusion-exclusion on lower sets, compared exactly (Properties_C02_weights.v)
+        c02weights.run(res, tier, seed)
         c02gauss.run(res, tier, seed)
+        # the weights form the code assembles (sum of w(t) x tensor rule) equals the difference form of the theorems (Properties_C02_bridge.v)
+        c02bridge.run(res)
         # exotic (Addons/tsgExoticQuadrature.hpp) and custom-tabulated rules: every declared monomial against exact rational moments, shifts of every sign
         c02exotic.run(res, tier, seed)
         px = vlib.coq_props("C02_exotic")
@@ -302,6 +308,9 @@ def replay(path):
     import json
     rp = json.load(open(path))
     res = vlib.Result(PID, "quick", rp.get("seed", 1), LEVEL)
+    if rp.get("driver") == "twdrv":
+        c02weights.run(res, "quick", rp.get("seed", 1), replay_cases=rp.get("cases"))
+        return res.finish()
     if rp.get("driver") == "exoticdrv":
         # the exotic / custom-tabulated stream of the recorded seed is re-run (it contains the recorded case)
         c02exotic.run(res, "quick", rp.get("seed", 1))
